@@ -143,9 +143,13 @@ fn calct_for<G: PrimeField>(c: &Value) -> Value {
     let lam = c["lam"].as_u64().unwrap() as usize;
     let d = (c["d0"].as_u64().unwrap() as usize, c["d1"].as_u64().unwrap() as usize);
     let n = (c["nm"].as_u64().unwrap() as usize) << c["ne"].as_u64().unwrap();
+    // the 19 leading bits of the modulus: |F| lies in [top, top+1) * 2^(bits-19)  (input of the TLA+ oracle)
+    let bits_be = ark_ff::BigInteger::to_bits_be(&G::MODULUS);
+    let first = bits_be.iter().position(|b| *b).unwrap_or(0);
+    let top: u64 = bits_be[first..first + 19].iter().fold(0u64, |acc, b| acc * 2 + *b as u64);
     match guarded(|| lc::calculate_t::<G>(lam, d, n)) {
-        Out::Ok(t) => json!({"class": "ok", "t": t, "n": n}),
-        o => json!({"class": o.class(), "t": 0, "n": n}),
+        Out::Ok(t) => json!({"class": "ok", "t": t, "n": n, "top": top, "modbits": bits_be.len() - first}),
+        o => json!({"class": o.class(), "t": 0, "n": n, "top": top, "modbits": bits_be.len() - first}),
     }
 }
 
